@@ -258,7 +258,7 @@ class DBStorage(BaseStorage):
                             delete_id = old_id
                             old_ts = created_at
                             break
-                    else:
+                    elif found_tag:
                         tag = found_tag[0]
                         if len(tag) > 1 and tag[1] == d_tag:
                             delete_id = old_id
